@@ -222,7 +222,10 @@ def rule_diff(ctx):
                 ok = strip(parts[pos]) == RES and strip(parts[1 - pos]) != RES
                 nanpart = parts[1 - pos]
                 fills = [e.a for e in p.calls('fill')]
-                ok = ok and any(T.dotted(f[2][0]) == 'np.nan' for f in fills if f[2])
+                # (filled after allocation, or allocated full of NaN in one go: np.full(shape, np.nan, ...))
+                nb = strip(nanpart)
+                full_nan = nb[0] == 'call' and T.dotted(nb[1]) == 'np.full' and T.dotted((nb[2][1:2] or (T.kw(nb, 'fill_value') or ('none',),))[0]) == 'np.nan'
+                ok = ok and (any(T.dotted(f[2][0]) == 'np.nan' for f in fills if f[2]) or full_nan)
             if ok:
                 # the slice has to be able to hold NaN and to exist even when there is no difference at all (size-1 axis): a slice made like
                 # result.take([0]) inherits an integer dtype (ValueError: cannot convert float NaN to integer) and fails on an empty result (IndexError)
